@@ -31,6 +31,7 @@ type c10Drv struct {
 	rng  *Rng
 	doms [8]reflect.Value // *Domain
 	vecs [4]reflect.Value // []Element
+	nslices int // windows handed out by elemSlice (rotates their offset)
 	tag  Ev               // extra keys attached to every event (input class markers)
 	adic int              // two-adicity (frozen copy of the documented constant, input selection only)
 	thin int              // >0: matrix() visits, per task count, 2 of the 4 (dec, coset) pairs (rotating with thin)
@@ -47,8 +48,12 @@ func (d *c10Drv) emit(e Ev) {
 	d.t.Emit(e)
 }
 
+// elemSlice returns a window into a larger array at a rotating offset (a fresh allocation is 64-byte aligned, a window is
+// not: vector kernels must not assume alignment) with spare capacity behind it.
 func (d *c10Drv) elemSlice(n int) reflect.Value {
-	return reflect.MakeSlice(reflect.SliceOf(d.f.ElemT), n, n)
+	d.nslices++
+	off := d.nslices % 4
+	return reflect.MakeSlice(reflect.SliceOf(d.f.ElemT), n+off+2, n+off+2).Slice(off, off+n)
 }
 
 func (d *c10Drv) vecRaw(v reflect.Value) [][]int {
